@@ -91,6 +91,16 @@ func c32RelayStr(nt *nsNet, e *relayEntry) string {
 	return fmt.Sprintf("up=%s#%d down=%s#%d", nt.name(e.UpstreamPeer), e.UpstreamID, nt.name(e.DownstreamPeer), e.DownstreamID)
 }
 
+func c32RelayTables(a *Agent) []struct {
+	name string
+	t    *relayTable
+} {
+	return []struct {
+		name string
+		t    *relayTable
+	}{{"tcp", a.tcpRelay}, {"udp", a.udpRelay}, {"icmp", a.icmpRelay}}
+}
+
 func c32Snapshot(nt *nsNet) c32State {
 	st := c32State{routes: map[string]bool{}, relays: map[string]bool{}}
 	p := nt.ids[c32P]
@@ -99,14 +109,15 @@ func c32Snapshot(nt *nsNet) c32State {
 			st.routes[nt.routeKey(r)] = true
 		}
 	}
-	t := nt.agents[c32M].tcpRelay
-	t.mu.RLock()
-	for _, e := range t.byUpstream {
-		if e.UpstreamPeer == p || e.DownstreamPeer == p {
-			st.relays[c32RelayStr(nt, e)] = true
+	for _, rt := range c32RelayTables(nt.agents[c32M]) {
+		rt.t.mu.RLock()
+		for _, e := range rt.t.byUpstream {
+			if e.UpstreamPeer == p || e.DownstreamPeer == p {
+				st.relays[rt.name+":"+c32RelayStr(nt, e)] = true
+			}
 		}
+		rt.t.mu.RUnlock()
 	}
-	t.mu.RUnlock()
 	return st
 }
 
@@ -147,13 +158,36 @@ func (o *c32Owner) learn(before, after c32State, k int) (nr, nl int) {
 // run is the real code that delivers the notification. If, when the notification arrives, another
 // connection is the registered one for the identity, then that connection's registration, liveness,
 // routes and relay entries must survive it.
-func c32Teardown(r *vmc.Result, nt *nsNet, own *c32Owner, conns []*peer.Connection, k int, kind string, nth int, rep func() any, run func()) {
+func c32Teardown(r *vmc.Result, nt *nsNet, own *c32Owner, conns []*peer.Connection, k int, kind string, nth int, closedAt [][]bool, rep func() any, run func()) {
 	mgr := nt.agents[c32M].peerMgr
-	c32TeardownPeek(r, nt, own, conns, k, kind, nth, rep, run, func() *peer.Connection { return mgr.GetPeer(nt.ids[c32P]) })
+	c32TeardownPeek(r, nt, own, conns, k, kind, nth, closedAt, rep, run, func() *peer.Connection { return mgr.GetPeer(nt.ids[c32P]) })
+}
+
+// c32NoteAccepted records, when connection j is accepted, which older connections were already
+// closed (their teardown had begun): closedAt[j][k]. It classifies a later stale notification.
+func c32NoteAccepted(closedAt [][]bool, conns []*peer.Connection, j int) {
+	for k, c := range conns {
+		closedAt[j][k] = c != nil && k != j && peer.C32IsClosed(c)
+	}
+}
+
+func c32ClosedAt(n int) [][]bool {
+	m := make([][]bool, n)
+	for i := range m {
+		m[i] = make([]bool, n)
+	}
+	return m
 }
 
 // c32TeardownPeek: peek returns the connection currently registered for P.
-func c32TeardownPeek(r *vmc.Result, nt *nsNet, own *c32Owner, conns []*peer.Connection, k int, kind string, nth int, rep func() any, run func(), peek func() *peer.Connection) {
+//
+// Fingerprint classes of a stale notification for connection k while connection j is registered:
+//   second-report              k's teardown had already been notified once (the other loop's late report)
+//   first-report-in-flight     k's first notification, and k was already closed when j was accepted: k's own
+//                              teardown had unregistered it and j slipped in before the notification ran
+//   first-report-replaced-live k's first notification, and k was still open when j was accepted: j replaced
+//                              a live registration
+func c32TeardownPeek(r *vmc.Result, nt *nsNet, own *c32Owner, conns []*peer.Connection, k int, kind string, nth int, closedAt [][]bool, rep func() any, run func(), peek func() *peer.Connection) {
 	cur := peek()
 	curIdx := -1
 	for i, c := range conns {
@@ -169,9 +203,11 @@ func c32TeardownPeek(r *vmc.Result, nt *nsNet, own *c32Owner, conns []*peer.Conn
 		return
 	}
 	// stale teardown: connection k is not (or no longer) the registered one; cur is.
-	which := "first-report"
+	which := "first-report-replaced-live"
 	if nth > 1 {
 		which = "second-report"
+	} else if curIdx >= 0 && closedAt[curIdx][k] {
+		which = "first-report-in-flight"
 	}
 	r.Nontrivial(fmt.Sprintf("stale-teardown|%s|%s|routes=%v|relays=%v", kind, which, len(before.routes) > 0, len(before.relays) > 0))
 	after := c32Snapshot(nt)
@@ -256,6 +292,7 @@ type c32World struct {
 	twins    []*peer.Connection // P's side of connection k
 	twinCur  int
 	mOut     []int // frames M wrote on wire k
+	closedAt [][]bool
 	connected map[*peer.Connection]bool
 }
 
@@ -277,7 +314,7 @@ func c32NewWorld(K int) (*c32World, error) {
 	w := &c32World{nt: nt, own: &c32Owner{routes: map[string]int{}, relays: map[string]int{}},
 		wires: make([]*peer.C32Wire, K), conns: make([]*peer.Connection, K), accepted: make([]bool, K),
 		reports: make([]int, K), rd: make([]bool, K), ka: make([]bool, K), dl: make([]bool, K), so: make([]bool, K),
-		q: make([][][]byte, K), twins: make([]*peer.Connection, K), twinCur: -1, mOut: make([]int, K)}
+		q: make([][][]byte, K), twins: make([]*peer.Connection, K), twinCur: -1, mOut: make([]int, K), closedAt: c32ClosedAt(K)}
 	return w, nil
 }
 
@@ -308,6 +345,16 @@ func c32OpenFrame(sid uint64, path []identity.AgentID) *protocol.Frame {
 	return &protocol.Frame{Type: protocol.FrameStreamOpen, StreamID: sid, Payload: open.Encode()}
 }
 
+func c32UDPOpenFrame(sid uint64, path []identity.AgentID) *protocol.Frame {
+	open := &protocol.UDPOpen{RequestID: sid, AddressType: protocol.AddrTypeIPv4, Address: []byte{0, 0, 0, 0}, Port: 0, TTL: 8, RemainingPath: path}
+	return &protocol.Frame{Type: protocol.FrameUDPOpen, StreamID: sid, Payload: open.Encode()}
+}
+
+func c32ICMPOpenFrame(sid uint64, path []identity.AgentID) *protocol.Frame {
+	open := &protocol.ICMPOpen{RequestID: sid, DestIP: []byte{10, 9, 9, 9}, TTL: 8, RemainingPath: path}
+	return &protocol.Frame{Type: protocol.FrameICMPOpen, StreamID: sid, Payload: open.Encode()}
+}
+
 func (w *c32World) apply(r *vmc.Result, ev string, rep func() any) error {
 	nt := w.nt
 	m := nt.agents[c32M]
@@ -330,6 +377,7 @@ func (w *c32World) apply(r *vmc.Result, ev string, rep func() any) error {
 		w.accepted[k] = m.peerMgr.GetPeer(nt.ids[c32P]) == c
 		r.Outcome(fmt.Sprintf("reg|accepted=%v|closed=%v", w.accepted[k], peer.C32IsClosed(c)))
 		if w.accepted[k] {
+			c32NoteAccepted(w.closedAt, w.conns, k)
 			// P's side of the new connection comes up: P drops what it had and registers the twin
 			pa := nt.agents[c32P]
 			if w.twinCur >= 0 {
@@ -365,6 +413,8 @@ func (w *c32World) apply(r *vmc.Result, ev string, rep func() any) error {
 		far := nsID(7)
 		m.processFrame(nt.ids[c32Q], c32OpenFrame(uint64(100+k), []identity.AgentID{nt.ids[c32P], far}))
 		m.processFrame(nt.ids[c32P], c32OpenFrame(uint64(200+k), []identity.AgentID{nt.ids[c32Q], far}))
+		m.processFrame(nt.ids[c32Q], c32UDPOpenFrame(uint64(300+k), []identity.AgentID{nt.ids[c32P], far}))
+		m.processFrame(nt.ids[c32Q], c32ICMPOpenFrame(uint64(400+k), []identity.AgentID{nt.ids[c32P], far}))
 		w.so[k] = true
 		_, nl := w.own.learn(before, c32Snapshot(nt), k)
 		r.Outcome(fmt.Sprintf("so|relays=%d", nl))
@@ -381,7 +431,7 @@ func (w *c32World) apply(r *vmc.Result, ev string, rep func() any) error {
 			w.rd[k] = true
 		}
 		w.reports[k]++
-		c32Teardown(r, nt, w.own, w.conns, k, p[0], w.reports[k], rep, func() {
+		c32Teardown(r, nt, w.own, w.conns, k, p[0], w.reports[k], w.closedAt, rep, func() {
 			c.Close()
 			m.peerMgr.VerifHandleDisconnect(c, err)
 		})
@@ -448,18 +498,18 @@ func (w *c32World) canon() string {
 		}
 		sb.WriteString(" " + key + own + "\n")
 	}
-	t := nt.agents[c32M].tcpRelay
-	t.mu.RLock()
-	var rl []string
-	for _, e := range t.byUpstream {
-		s := c32RelayStr(nt, e)
-		rl = append(rl, fmt.Sprintf("%s own=%d", s, w.own.relays[s]))
+	var rl, dn []string
+	for _, rt := range c32RelayTables(nt.agents[c32M]) {
+		rt.t.mu.RLock()
+		for _, e := range rt.t.byUpstream {
+			s := rt.name + ":" + c32RelayStr(nt, e)
+			rl = append(rl, fmt.Sprintf("%s own=%d", s, w.own.relays[s]))
+		}
+		for id, e := range rt.t.byDownstream {
+			dn = append(dn, fmt.Sprintf("%s:%d->%s", rt.name, id, c32RelayStr(nt, e)))
+		}
+		rt.t.mu.RUnlock()
 	}
-	var dn []string
-	for id, e := range t.byDownstream {
-		dn = append(dn, fmt.Sprintf("%d->%s", id, c32RelayStr(nt, e)))
-	}
-	t.mu.RUnlock()
 	sort.Strings(rl)
 	sort.Strings(dn)
 	sb.WriteString("relays=" + strings.Join(rl, ";") + "\ndown=" + strings.Join(dn, ";") + "\n")
@@ -546,7 +596,7 @@ func TestVerif_C32(t *testing.T) {
 			}
 			st := c32Snapshot(w1.nt)
 			r.Sample(map[string]any{"history": probe, "routes_via_P": c32Keys(st.routes), "relays_of_P": c32Keys(st.relays)})
-			if len(st.routes) < 3 || len(st.relays) != 2 {
+			if len(st.routes) < 3 || len(st.relays) != 4 {
 				r.HarnessError("C32 probe history did not build the expected state: routes=%v relays=%v", c32Keys(st.routes), c32Keys(st.relays))
 			}
 			w1.close()
